@@ -69,8 +69,14 @@ func VHSetStep() {
 func VGSmall() *Set[int] {
 	n := v.Split(v.IntIn("n", 0, v.CfgOr("N", 3)), 0, 16)
 	s := NewWith[int](vl.Cmp)
+	prev := 0
 	for i := 0; i < n; i++ {
-		s.Add(v.Int("e"))
+		e := v.Int("e")
+		if i > 0 && v.CfgOr("asc", 0) == 1 { // larger operands at lower cost: one insertion order (ascending, distinct)
+			v.Assume(vl.Less(prev, e))
+		}
+		s.Add(e)
+		prev = e
 	}
 	return s
 }
